@@ -486,4 +486,843 @@ theorem setAlt_getAlt_group (r : Reg) (alts : List Nat) (v : Nat) (raw : Bool)
       have := altWidth_brev_stable alts r.width v x h8 halts' hv hx1 (hst hc)
       simp only [this, hx3, if_true]
 
+/-! ### configuration path: enum names -/
+
+theorem enumValueOf_cases (r : Reg) (f : Field) (fm : FieldMeta) (v : Nat) (h : fieldGet r f = .ok v) :
+    enumValueOf r f fm = .ok (.num v) ∨
+      ∃ n, enumValueOf r f fm = .ok (.enumName n) ∧ enumConst f fm n = some v := by
+  unfold enumValueOf
+  rw [h]
+  simp only []
+  split
+  · rename_i k _
+    by_cases hc : enumConst f fm (fm.nameOf k) = some v
+    · right; exact ⟨fm.nameOf k, by simp [hc], hc⟩
+    · left; simp [hc]
+  · left; rfl
+
+theorem loadField_decoded (cur : Reg) (f : Field) (fm : FieldMeta) (c : CfgVal) (v : Nat)
+    (h : c = .num v ∨ ∃ n, c = .enumName n ∧ enumConst f fm n = some v) :
+    loadField cur f fm c = fieldSet cur f v true false := by
+  rcases h with rfl | ⟨n, rfl, hn⟩
+  · rfl
+  · simp [loadField, hn]
+
+/-! ### configuration path: one register with bit-fields -/
+
+/-- bit `k` lies in a bit-field of `fs` (numbered from `j`) that `get_config` writes out: every bit-field except the
+    hidden ones that hold their reset value -/
+def CarriedFrom (rm : RegMeta) (r : Reg) (fs : List Field) (j k : Nat) : Prop :=
+  ∃ t f, fs[t]? = some f ∧ f.offset ≤ k ∧ k < f.offset + f.width ∧
+    ¬ ((rm.field (j + t)).hidden = true ∧ fieldGet r f = .ok f.reset)
+
+theorem carriedFrom_cons (rm : RegMeta) (r : Reg) (f : Field) (fs : List Field) (j k : Nat) :
+    CarriedFrom rm r (f :: fs) j k ↔
+      ((f.offset ≤ k ∧ k < f.offset + f.width ∧ ¬ ((rm.field j).hidden = true ∧ fieldGet r f = .ok f.reset)) ∨
+        CarriedFrom rm r fs (j + 1) k) := by
+  constructor
+  · rintro ⟨t, g, hg, h1, h2, h3⟩
+    cases t with
+    | zero =>
+      simp at hg; subst hg
+      left; exact ⟨h1, h2, by simpa using h3⟩
+    | succ t =>
+      right
+      refine ⟨t, g, by simpa using hg, h1, h2, ?_⟩
+      have e : j + 1 + t = j + (t + 1) := by omega
+      rw [e]; exact h3
+  · rintro (⟨h1, h2, h3⟩ | ⟨t, g, hg, h1, h2, h3⟩)
+    · exact ⟨0, f, by simp, h1, h2, by simpa using h3⟩
+    · refine ⟨t + 1, g, by simpa using hg, h1, h2, ?_⟩
+      have e : j + 1 + t = j + (t + 1) := by omega
+      rw [← e]; exact h3
+
+theorem slice_testBit (a off w t : Nat) :
+    ((a >>> off) &&& mask w).testBit t = (a.testBit (off + t) && decide (t < w)) := by
+  simp [Nat.testBit_and, Nat.testBit_shiftRight, testBit_mask]
+
+theorem slice_lt (a off w : Nat) : (a >>> off) &&& mask w < 2 ^ w := by
+  apply Nat.and_lt_two_pow
+  simp only [mask]
+  have : 0 < 2 ^ w := Nat.two_pow_pos _
+  omega
+
+/-- `get_config` of the bit-fields `fs` of `R`, loaded bit-field by bit-field into `cur` (same layout): every carried bit
+    takes the value it has in `R`, every other bit keeps the value it has in `cur` -/
+theorem loadFields_fieldsConfig (R : Reg) (rm : RegMeta) (hp : R.subW = 0) (hn : R.reverse = false)
+    (fs : List Field) (j : Nat) (hfs : ∀ t, fs[t]? = R.fields[j + t]?)
+    (hin : ∀ f ∈ fs, f.offset + f.width ≤ R.width)
+    (cur : Reg) (hcp : cur.subW = 0) (hcn : cur.reverse = false) (hcw : cur.width = R.width)
+    (hcf : cur.fields = R.fields) (hcb : cur.value < 2 ^ cur.width) :
+    ∃ l x, fieldsConfig R rm fs j = .ok l ∧ loadFields cur rm l = .ok { cur with value := x } ∧ x < 2 ^ R.width ∧
+      ∀ k, (CarriedFrom rm R fs j k → x.testBit k = R.value.testBit k) ∧
+           (¬ CarriedFrom rm R fs j k → x.testBit k = cur.value.testBit k) := by
+  induction fs generalizing j cur with
+  | nil =>
+    refine ⟨[], cur.value, rfl, rfl, hcw ▸ hcb, ?_⟩
+    intro k
+    refine ⟨?_, fun _ => rfl⟩
+    rintro ⟨t, f, hf, _⟩
+    simp at hf
+  | cons f fs ih =>
+    have hf0 : R.fields[j]? = some f := by
+      have := hfs 0; simpa using this.symm
+    have hfs' : ∀ t, fs[t]? = R.fields[j + 1 + t]? := by
+      intro t
+      have := hfs (t + 1)
+      have e : j + (t + 1) = j + 1 + t := by omega
+      rw [e] at this
+      simpa using this
+    have hin' : ∀ g ∈ fs, g.offset + g.width ≤ R.width := fun g hg => hin g (by simp [hg])
+    have hinf : f.offset + f.width ≤ cur.width := by rw [hcw]; exact hin f (by simp)
+    have hget := fieldGet_plain R f hp hn
+    unfold fieldsConfig
+    rw [hget]
+    simp only []
+    by_cases hskip : ((rm.field j).hidden && (((R.value >>> f.offset) &&& mask f.width) <<< f.shift == f.reset)) = true
+    · -- a hidden bit-field at its reset value is not written out
+      rw [if_pos hskip]
+      obtain ⟨l, x, h1, h2, h3, h4⟩ := ih (j + 1) hfs' hin' cur hcp hcn hcw hcf hcb
+      refine ⟨l, x, h1, h2, h3, ?_⟩
+      have hsk : (rm.field j).hidden = true ∧ fieldGet R f = .ok f.reset := by
+        simp only [Bool.and_eq_true, beq_iff_eq] at hskip
+        exact ⟨hskip.1, by rw [hget, hskip.2]⟩
+      intro k
+      have hiff : CarriedFrom rm R (f :: fs) j k ↔ CarriedFrom rm R fs (j + 1) k := by
+        rw [carriedFrom_cons]
+        constructor
+        · rintro (⟨_, _, h⟩ | h)
+          · exact absurd hsk h
+          · exact h
+        · exact fun h => Or.inr h
+      rw [hiff]; exact h4 k
+    · rw [if_neg hskip]
+      have hnsk : ¬ ((rm.field j).hidden = true ∧ fieldGet R f = .ok f.reset) := by
+        rintro ⟨a, b⟩
+        apply hskip
+        rw [hget] at b
+        have : ((R.value >>> f.offset) &&& mask f.width) <<< f.shift = f.reset := by
+          injection b
+        simp [a, this]
+      -- the value written out decodes to the bit-field value
+      have hdec := enumValueOf_cases R f (rm.field j) _ hget
+      have hsr : (((R.value >>> f.offset) &&& mask f.width) <<< f.shift) >>> f.shift
+          = (R.value >>> f.offset) &&& mask f.width := Nat.shiftLeft_shiftRight _ _
+      have hvlt : (((R.value >>> f.offset) &&& mask f.width) <<< f.shift) >>> f.shift < 2 ^ f.width := by
+        rw [hsr]; exact slice_lt _ _ _
+      have hset := fieldSet_plain_ok cur f _ true hcp hcn hcb hinf hvlt
+      rw [hsr] at hset
+      obtain ⟨l, x, h1, h2, h3, h4⟩ := ih (j + 1) hfs' hin'
+        { cur with value := insertBits cur.value f.offset f.width ((R.value >>> f.offset) &&& mask f.width) }
+        hcp hcn hcw hcf (insertBits_lt _ _ _ _ _ hcb hinf)
+      have hbits : ∀ k, (CarriedFrom rm R (f :: fs) j k → x.testBit k = R.value.testBit k) ∧
+           (¬ CarriedFrom rm R (f :: fs) j k → x.testBit k = cur.value.testBit k) := by
+        intro k
+        rw [carriedFrom_cons]
+        by_cases hc : CarriedFrom rm R fs (j + 1) k
+        · exact ⟨fun _ => (h4 k).1 hc, fun h => absurd (Or.inr hc) h⟩
+        · have hx := (h4 k).2 hc
+          simp only [] at hx
+          rw [testBit_insertBits] at hx
+          by_cases hr : f.offset ≤ k ∧ k < f.offset + f.width
+          · rw [if_pos hr, slice_testBit] at hx
+            have e : f.offset + (k - f.offset) = k := by omega
+            have hd : decide (k - f.offset < f.width) = true := by simp; omega
+            rw [e, hd, Bool.and_true] at hx
+            exact ⟨fun _ => hx, fun h => absurd (Or.inl ⟨hr.1, hr.2, hnsk⟩) h⟩
+          · rw [if_neg hr] at hx
+            refine ⟨?_, fun _ => hx⟩
+            rintro (⟨a, b, _⟩ | h)
+            · exact absurd ⟨a, b⟩ hr
+            · exact absurd h hc
+      have hlook : cur.fields[j]? = some f := by rw [hcf]; exact hf0
+      rcases hdec with hd | ⟨n, hd, hn'⟩
+      · rw [hd, h1]
+        refine ⟨(j, .num _) :: l, x, rfl, ?_, h3, hbits⟩
+        simp only [loadFields, hlook]
+        rw [loadField_decoded cur f (rm.field j) _ _ (Or.inl rfl), hset]
+        exact h2
+      · rw [hd, h1]
+        refine ⟨(j, .enumName n) :: l, x, rfl, ?_, h3, hbits⟩
+        simp only [loadFields, hlook]
+        rw [loadField_decoded cur f (rm.field j) _ _ (Or.inr ⟨n, rfl, hn'⟩), hset]
+        exact h2
+
+/-! ### configuration round trip of one register -/
+
+/-- the bits of `r` that its configuration carries -/
+def Carried (rm : RegMeta) (r : Reg) (k : Nat) : Prop := CarriedFrom rm r r.fields 0 k
+
+theorem carried_iff (rm : RegMeta) (r : Reg) (k : Nat) :
+    Carried rm r k ↔ ∃ j f, r.fields[j]? = some f ∧ f.offset ≤ k ∧ k < f.offset + f.width ∧
+      ¬ ((rm.field j).hidden = true ∧ fieldGet r f = .ok f.reset) := by
+  unfold Carried CarriedFrom
+  constructor
+  · rintro ⟨t, f, h1, h2, h3, h4⟩; exact ⟨t, f, h1, h2, h3, by simpa using h4⟩
+  · rintro ⟨t, f, h1, h2, h3, h4⟩; exact ⟨t, f, h1, h2, h3, by simpa using h4⟩
+
+/-- register with bit-fields -/
+theorem regcfg_rt_fields (R r0 : Reg) (rm : RegMeta) (hp : R.subW = 0) (hn : R.reverse = false)
+    (hne : R.fields ≠ []) (hin : ∀ f ∈ R.fields, f.offset + f.width ≤ R.width)
+    (hcp : r0.subW = 0) (hcn : r0.reverse = false) (hcw : r0.width = R.width)
+    (hcf : r0.fields = R.fields) (hcb : r0.value < 2 ^ r0.width) :
+    ∃ c x, regConfig R rm = .ok c ∧ loadReg r0 rm c = .ok { r0 with value := x } ∧ x < 2 ^ R.width ∧
+      ∀ k, (Carried rm R k → x.testBit k = R.value.testBit k) ∧
+           (¬ Carried rm R k → x.testBit k = r0.value.testBit k) := by
+  obtain ⟨l, x, h1, h2, h3, h4⟩ := loadFields_fieldsConfig R rm hp hn R.fields 0 (by intro t; simp) hin
+    r0 hcp hcn hcw hcf hcb
+  refine ⟨.fields l, x, ?_, ?_, h3, h4⟩
+  · have : R.fields.isEmpty = false := by
+      cases hf : R.fields with
+      | nil => exact absurd hf hne
+      | cons a as => rfl
+    simp [regConfig, this, h1]
+  · simp only [loadReg, h2]
+    rw [getAlt_plain { r0 with value := x } rm.alts true hcp hcn]
+    simp only []
+    rw [setAlt_plain { r0 with value := x } rm.alts x false hcp hcn (by rw [← hcw] at h3; exact h3)]
+
+/-- plain register without bit-fields -/
+theorem regcfg_rt_plain (R r0 : Reg) (rm : RegMeta) (hp : R.subW = 0) (hn : R.reverse = false)
+    (he : R.fields = []) (hb : R.value < 2 ^ R.width)
+    (hcp : r0.subW = 0) (hcn : r0.reverse = false) (hcw : r0.width = R.width) :
+    ∃ c, regConfig R rm = .ok c ∧ loadReg r0 rm c = .ok { r0 with value := R.value } := by
+  refine ⟨.value R.value, ?_, ?_⟩
+  · simp [regConfig, he, getAlt_plain R rm.alts false hp hn]
+  · simp only [loadReg]
+    exact setAlt_plain r0 rm.alts R.value false hcp hcn (by rw [hcw]; exact hb)
+
+/-- the slices of the assembled value of `R`, distributed over a register `r0` of the same layout whose
+    sub-registers beyond the alternative width are zero, are the sub-registers of `R` -/
+theorem distributeW_assemble (R r0 : Reg) (aw : Nat) (hg : 0 < R.subW) (hw : R.width = R.subW * R.subs.length)
+    (hb : ∀ s ∈ R.subs, s < 2 ^ R.subW)
+    (hsw : r0.subW = R.subW) (hrs : r0.revSubs = R.revSubs) (hlen : r0.subs.length = R.subs.length)
+    (hdiv : aw % R.subW = 0) (hlt : assemble R < 2 ^ aw)
+    (hord : R.revSubs = false ∨ aw = R.width)
+    (hup : ∀ i, aw / R.subW ≤ i → r0.subs.getD i 0 = 0) :
+    distributeW r0 aw (assemble R) = R.subs := by
+  apply List.ext_getElem?
+  intro i
+  rcases Nat.lt_or_ge i R.subs.length with hi | hi
+  · rw [distributeW_getElem? r0 aw _ i (by omega), List.getElem?_eq_getElem hi]
+    congr 1
+    rw [hsw]
+    have hgd : R.subs[i] = R.subs.getD i 0 := by
+      rw [List.getD_eq_getElem?_getD, List.getElem?_eq_getElem hi]; rfl
+    by_cases hin : i < aw / R.subW
+    · rw [if_pos hin, hgd, ← slice_assemble R i hw hb hi]
+      have hpos : subPosW r0 aw i = subPos R i := by
+        rcases hord with h | h
+        · simp [subPosW, subPos, hrs, hsw, h]
+        · simp [subPosW, subPos, hrs, hsw, h]
+      rw [hpos]
+    · rw [if_neg hin, hup i (by omega), hgd]
+      rcases hord with h | h
+      · exact (sub_zero_of_assemble_lt R aw i hw hb h hg hdiv hlt (by omega)).symm
+      · exfalso
+        apply hin
+        rw [h, hw, Nat.mul_div_cancel_left _ hg]; exact hi
+  · rw [List.getElem?_eq_none (by rw [distributeW_length]; omega), List.getElem?_eq_none hi]
+
+/-- grouped register (no bit-fields), with or without alternative widths -/
+theorem regcfg_rt_group (R r0 : Reg) (alts : List Nat) (hg : 0 < R.subW) (hw : R.width = R.subW * R.subs.length)
+    (hb : ∀ s ∈ R.subs, s < 2 ^ R.subW) (h8 : R.width % 8 = 0)
+    (halts : ∀ a ∈ alts, a % 8 = 0 ∧ 8 ≤ a ∧ a ≤ R.width ∧ a % R.subW = 0)
+    (hord : R.revSubs = false ∨ alts = [])
+    (hcw : r0.width = R.width) (hsw : r0.subW = R.subW) (hrs : r0.revSubs = R.revSubs)
+    (hrv : r0.reverse = R.reverse) (hlen : r0.subs.length = R.subs.length)
+    (hup : ∀ i, altWidth alts R.width (assemble R) / R.subW ≤ i → r0.subs.getD i 0 = 0)
+    (hst : R.reverse = true → ∀ a ∈ alts, a < altWidth alts R.width (assemble R) →
+      assemble R % 2 ^ (altWidth alts R.width (assemble R) - a) ≠ 0) :
+    ∃ x, R.getAlt alts false = .ok x ∧ r0.setAlt alts x false = .ok { r0 with subs := R.subs } := by
+  have hva := assemble_lt R hw hb
+  obtain ⟨f8, fdiv, fle, fv⟩ := altWidth_facts alts R (assemble R) hw h8 halts hva
+  have halts' : ∀ a ∈ alts, a % 8 = 0 ∧ 8 ≤ a ∧ a ≤ R.width := fun a ha =>
+    ⟨(halts a ha).1, (halts a ha).2.1, (halts a ha).2.2.1⟩
+  have hg0 : 0 < r0.subW := by rw [hsw]; exact hg
+  have hord' : R.revSubs = false ∨ altWidth alts R.width (assemble R) = R.width := by
+    rcases hord with h | h
+    · exact Or.inl h
+    · right; rw [h, altWidth_nil]
+  have hdist := distributeW_assemble R r0 _ hg hw hb hsw hrs hlen fdiv fv hord' hup
+  rw [getAlt_group R alts false hg]
+  cases hr : R.reverse with
+  | false =>
+    refine ⟨assemble R, by simp, ?_⟩
+    rw [setAlt_group r0 alts (assemble R) (assemble R) false hg0 (by rw [hcw]; exact hva) (by simp [hrv, hr])]
+    rw [hcw, hdist]
+  | true =>
+    obtain ⟨x, hx1, hx2, hx3⟩ := brev_invol' _ (assemble R) f8 fv
+    have hxw : x < 2 ^ R.width := Nat.lt_of_lt_of_le hx2 (Nat.pow_le_pow_right (by decide) fle)
+    have hstab := altWidth_brev_stable alts R.width (assemble R) x h8 halts' hva hx1 (hst hr)
+    refine ⟨x, by simp [hx1], ?_⟩
+    rw [setAlt_group r0 alts x (assemble R) false hg0 (by rw [hcw]; exact hxw)
+      (by simp [hrv, hr, hcw, hstab, hx3])]
+    rw [hcw, hstab, hdist]
+
+theorem regcfg_rt_group' (R r0 : Reg) (rm : RegMeta) (hg : 0 < R.subW) (hw : R.width = R.subW * R.subs.length)
+    (hb : ∀ s ∈ R.subs, s < 2 ^ R.subW) (h8 : R.width % 8 = 0) (he : R.fields = [])
+    (halts : ∀ a ∈ rm.alts, a % 8 = 0 ∧ 8 ≤ a ∧ a ≤ R.width ∧ a % R.subW = 0)
+    (hord : R.revSubs = false ∨ rm.alts = [])
+    (hcw : r0.width = R.width) (hsw : r0.subW = R.subW) (hrs : r0.revSubs = R.revSubs)
+    (hrv : r0.reverse = R.reverse) (hlen : r0.subs.length = R.subs.length)
+    (hup : ∀ i, altWidth rm.alts R.width (assemble R) / R.subW ≤ i → r0.subs.getD i 0 = 0)
+    (hst : R.reverse = true → ∀ a ∈ rm.alts, a < altWidth rm.alts R.width (assemble R) →
+      assemble R % 2 ^ (altWidth rm.alts R.width (assemble R) - a) ≠ 0) :
+    ∃ c, regConfig R rm = .ok c ∧ loadReg r0 rm c = .ok { r0 with subs := R.subs } := by
+  obtain ⟨x, h1, h2⟩ := regcfg_rt_group R r0 rm.alts hg hw hb h8 halts hord hcw hsw hrs hrv hlen hup hst
+  refine ⟨.value x, ?_, ?_⟩
+  · simp [regConfig, he, h1]
+  · simp only [loadReg]; exact h2
+
+/-! ### lifting a per-register round trip to the register file -/
+
+theorem updAt_append (pre post : RegFile) (r r' : Reg) (g : Reg → PyRes Reg) (h : g r = .ok r') :
+    updAt (pre ++ r :: post) pre.length g = .ok (pre ++ r' :: post) := by
+  simp [updAt, h]
+
+theorem roundtrip_lift (m : Meta) (P : RegMeta → Reg → Reg → Prop) (Q : RegMeta → Reg → Reg → Reg → Prop)
+    (hreg : ∀ rm r r0, P rm r r0 → ∃ c r', regConfig r rm = .ok c ∧ loadReg r0 rm c = .ok r' ∧ Q rm r r0 r')
+    (rs rs0 pre : RegFile) (hlen : rs0.length = rs.length)
+    (hok : ∀ t r r0, rs[t]? = some r → rs0[t]? = some r0 → P (m.reg (pre.length + t)) r r0) :
+    ∃ cfg rs', getConfigFrom m rs pre.length = .ok cfg ∧ loadConfig m (pre ++ rs0) cfg = .ok (pre ++ rs') ∧
+      rs'.length = rs.length ∧
+      ∀ t r r0, rs[t]? = some r → rs0[t]? = some r0 →
+        ∃ r', rs'[t]? = some r' ∧ Q (m.reg (pre.length + t)) r r0 r' := by
+  induction rs generalizing rs0 pre with
+  | nil =>
+    cases rs0 with
+    | nil => exact ⟨[], [], rfl, rfl, rfl, by intro t r r0 h; simp at h⟩
+    | cons a as => simp at hlen
+  | cons r rs ih =>
+    cases rs0 with
+    | nil => simp at hlen
+    | cons r0 rs0 =>
+      obtain ⟨c, r', hc, hl, hq⟩ := hreg _ r r0 (hok 0 r r0 (by simp) (by simp))
+      have hlen' : rs0.length = rs.length := by simpa using hlen
+      obtain ⟨cfg, rs', h1, h2, h3, h4⟩ := ih rs0 (pre ++ [r']) hlen' (by
+        intro t a a0 ha ha0
+        have := hok (t + 1) a a0 (by simpa using ha) (by simpa using ha0)
+        have e : (pre ++ [r']).length + t = pre.length + (t + 1) := by simp; omega
+        rw [e]; exact this)
+      have e1 : (pre ++ [r']).length = pre.length + 1 := by simp
+      rw [e1] at h1
+      refine ⟨(.top pre.length, c) :: cfg, r' :: rs', ?_, ?_, by simp [h3], ?_⟩
+      · have hc' : regConfig r (m.reg (pre.length + 0)) = .ok c := hc
+        simp only [Nat.add_zero] at hc'
+        simp [getConfigFrom, hc', h1]
+      · have hl' : loadReg r0 (m.reg (pre.length + 0)) c = .ok r' := hl
+        simp only [Nat.add_zero] at hl'
+        simp only [loadConfig, loadEntry]
+        rw [updAt_append pre rs0 r0 r' _ hl']
+        simp only []
+        have e2 : pre ++ r' :: rs0 = (pre ++ [r']) ++ rs0 := by simp
+        have e3 : pre ++ r' :: rs' = (pre ++ [r']) ++ rs' := by simp
+        rw [e2, e3]; exact h2
+      · intro t a a0 ha ha0
+        cases t with
+        | zero =>
+          simp at ha ha0; subst ha; subst ha0
+          exact ⟨r', by simp, hq⟩
+        | succ t =>
+          obtain ⟨a', h5, h6⟩ := h4 t a a0 (by simpa using ha) (by simpa using ha0)
+          have e : (pre ++ [r']).length + t = pre.length + (t + 1) := by simp; omega
+          rw [e] at h6
+          exact ⟨a', by simpa using h5, h6⟩
+
+/-! ### a group reads through its sub-registers only -/
+
+theorem group_views_congr (r1 r2 : Reg) (alts : List Nat) (raw : Bool) (hw : r1.width = r2.width)
+    (hr : r1.reverse = r2.reverse) (hs : r1.subW = r2.subW) (hne : r2.subW ≠ 0) (hsub : r1.subs = r2.subs)
+    (hrs : r1.revSubs = r2.revSubs) :
+    r1.getAlt alts raw = r2.getAlt alts raw ∧ r1.get raw = r2.get raw := by
+  cases r1; cases r2
+  simp only [] at hw hr hs hne hsub hrs
+  subst hw hr hs hsub hrs
+  simp [Reg.getAlt, Reg.get, Reg.isGroup, hne, assemble, subPos]
+
+/-! ### loading a configuration twice: one register -/
+
+/-- plain register as loaded from a specification (mirror of `C11.RegWF`) -/
+structure PlainOK (r : Reg) : Prop where
+  plain : r.subW = 0
+  norev : r.reverse = false
+  bound : r.value < 2 ^ r.width
+  fieldsIn : ∀ f ∈ r.fields, f.offset + f.width ≤ r.width
+  disjoint : r.fields.Pairwise (fun f g => f.offset + f.width ≤ g.offset ∨ g.offset + g.width ≤ f.offset)
+
+/-- grouped register (mirror of `C11.GroupWF`) -/
+structure GroupOK (r : Reg) : Prop where
+  sub : 0 < r.subW
+  width : r.width = r.subW * r.subs.length
+  bound : ∀ s ∈ r.subs, s < 2 ^ r.subW
+  bytes : r.width % 8 = 0
+
+/-- the bits a configuration value puts into the bit-field (after the config pre-processor) -/
+def cfgSlice (f : Field) (fm : FieldMeta) : CfgVal → Option Nat
+  | .enumName n => (enumConst f fm n).map (· >>> f.shift)
+  | .num v => some (v >>> f.shift)
+  | .rawNum v => some v
+
+theorem fieldSet_plain_gen (r : Reg) (f : Field) (v : Nat) (raw noPre : Bool) (h : PlainOK r)
+    (hin : f.offset + f.width ≤ r.width) :
+    fieldSet r f v raw noPre =
+      (if (if noPre then v else v >>> f.shift) ≥ 2 ^ f.width then .error .spsdk
+       else .ok { r with value := insertBits r.value f.offset f.width (if noPre then v else v >>> f.shift) }) := by
+  unfold fieldSet
+  simp only []
+  generalize (if noPre = true then v else v >>> f.shift) = v1
+  by_cases hv : v1 ≥ 2 ^ f.width
+  · simp [hv]
+  · simp only [hv, if_false]
+    rw [get_plain r raw h.plain h.norev]
+    simp only []
+    rw [set_plain r _ raw h.plain h.norev (insertBits_lt _ _ _ _ _ h.bound hin)]
+
+theorem loadField_plain (r : Reg) (f : Field) (fm : FieldMeta) (c : CfgVal) (h : PlainOK r)
+    (hin : f.offset + f.width ≤ r.width) :
+    loadField r f fm c =
+      (match cfgSlice f fm c with
+       | none => .error .spsdk
+       | some v1 => if v1 ≥ 2 ^ f.width then .error .spsdk
+                    else .ok { r with value := insertBits r.value f.offset f.width v1 }) := by
+  cases c with
+  | enumName n =>
+    simp only [loadField, cfgSlice]
+    cases enumConst f fm n with
+    | none => rfl
+    | some v => simp [fieldSet_plain_gen r f v true false h hin]
+  | num v => simp [loadField, cfgSlice, fieldSet_plain_gen r f v true false h hin]
+  | rawNum v => simp [loadField, cfgSlice, fieldSet_plain_gen r f v true true h hin]
+
+theorem plainOK_upd (r : Reg) (x : Nat) (h : PlainOK r) (hx : x < 2 ^ r.width) : PlainOK { r with value := x } :=
+  ⟨h.plain, h.norev, hx, h.fieldsIn, h.disjoint⟩
+
+theorem loadField_plain_inv (r r' : Reg) (f : Field) (fm : FieldMeta) (c : CfgVal) (h : PlainOK r)
+    (hin : f.offset + f.width ≤ r.width) (hl : loadField r f fm c = .ok r') :
+    ∃ v1, cfgSlice f fm c = some v1 ∧ v1 < 2 ^ f.width ∧
+      r' = { r with value := insertBits r.value f.offset f.width v1 } := by
+  rw [loadField_plain r f fm c h hin] at hl
+  cases hs : cfgSlice f fm c with
+  | none => rw [hs] at hl; cases hl
+  | some v1 =>
+    rw [hs] at hl
+    simp only [] at hl
+    by_cases hv : v1 ≥ 2 ^ f.width
+    · rw [if_pos hv] at hl; cases hl
+    · rw [if_neg hv] at hl
+      cases hl
+      exact ⟨v1, rfl, by omega, rfl⟩
+
+theorem loadFields_plain_inv (r r1 : Reg) (rm : RegMeta) (l : List (Nat × CfgVal)) (h : PlainOK r)
+    (hl : loadFields r rm l = .ok r1) : ∃ y, r1 = { r with value := y } ∧ y < 2 ^ r.width := by
+  induction l generalizing r with
+  | nil => simp [loadFields] at hl; subst hl; exact ⟨r.value, rfl, h.bound⟩
+  | cons e rest ih =>
+    obtain ⟨j, c⟩ := e
+    simp only [loadFields] at hl
+    cases hf : r.fields[j]? with
+    | none => rw [hf] at hl; cases hl
+    | some f =>
+      rw [hf] at hl
+      simp only [] at hl
+      cases hlf : loadField r f (rm.field j) c with
+      | error e => rw [hlf] at hl; cases hl
+      | ok ra =>
+        rw [hlf] at hl
+        simp only [] at hl
+        have hin := h.fieldsIn f (List.mem_of_getElem? hf)
+        obtain ⟨v1, _, _, rfl⟩ := loadField_plain_inv r ra f _ c h hin hlf
+        obtain ⟨y, hy, hyb⟩ := ih _ (plainOK_upd r _ h (insertBits_lt _ _ _ _ _ h.bound hin)) hl
+        exact ⟨y, hy, hyb⟩
+
+theorem pairwise_disjoint_ne (fs : List Field) (i j : Nat) (f g : Field)
+    (hp : fs.Pairwise (fun f g => f.offset + f.width ≤ g.offset ∨ g.offset + g.width ≤ f.offset))
+    (hi : fs[i]? = some f) (hj : fs[j]? = some g) (hne : i ≠ j) :
+    f.offset + f.width ≤ g.offset ∨ g.offset + g.width ≤ f.offset := by
+  have hil : i < fs.length := by
+    rcases Nat.lt_or_ge i fs.length with h | h
+    · exact h
+    · rw [List.getElem?_eq_none h] at hi; cases hi
+  have hjl : j < fs.length := by
+    rcases Nat.lt_or_ge j fs.length with h | h
+    · exact h
+    · rw [List.getElem?_eq_none h] at hj; cases hj
+  rw [List.getElem?_eq_getElem hil] at hi
+  rw [List.getElem?_eq_getElem hjl] at hj
+  cases hi; cases hj
+  rw [List.pairwise_iff_getElem] at hp
+  rcases Nat.lt_or_gt_of_ne hne with h | h
+  · exact hp i j hil hjl h
+  · exact (hp j i hjl hil h).symm
+
+/-- entries that do not name bit-field `j` leave its bits alone -/
+theorem loadFields_frame (r r1 : Reg) (rm : RegMeta) (l : List (Nat × CfgVal)) (j : Nat) (f : Field)
+    (h : PlainOK r) (hf : r.fields[j]? = some f) (hnot : j ∉ l.map (·.1)) (hl : loadFields r rm l = .ok r1) :
+    (r1.value >>> f.offset) &&& mask f.width = (r.value >>> f.offset) &&& mask f.width := by
+  induction l generalizing r with
+  | nil => simp [loadFields] at hl; subst hl; rfl
+  | cons e rest ih =>
+    obtain ⟨j', c⟩ := e
+    simp only [loadFields] at hl
+    cases hf' : r.fields[j']? with
+    | none => rw [hf'] at hl; cases hl
+    | some g =>
+      rw [hf'] at hl
+      simp only [] at hl
+      cases hlf : loadField r g (rm.field j') c with
+      | error e => rw [hlf] at hl; cases hl
+      | ok ra =>
+        rw [hlf] at hl
+        simp only [] at hl
+        have hin := h.fieldsIn g (List.mem_of_getElem? hf')
+        obtain ⟨v1, _, _, rfl⟩ := loadField_plain_inv r ra g _ c h hin hlf
+        have hne : j' ≠ j := by
+          intro e; apply hnot; simp [e]
+        have hnot' : j ∉ rest.map (·.1) := by
+          intro hm; apply hnot; simp at hm ⊢; exact Or.inr hm
+        have := ih _ (plainOK_upd r _ h (insertBits_lt _ _ _ _ _ h.bound hin)) hf hnot' hl
+        rw [this]
+        exact slice_insertBits_disjoint _ _ _ _ _ _ (pairwise_disjoint_ne r.fields j' j g f h.disjoint hf' hf hne)
+
+theorem insertBits_same (y off w v1 : Nat) (h : (y >>> off) &&& mask w = v1) : insertBits y off w v1 = y := by
+  apply Nat.eq_of_testBit_eq; intro k
+  rw [testBit_insertBits]
+  by_cases hr : off ≤ k ∧ k < off + w
+  · rw [if_pos hr, ← h, slice_testBit]
+    have e : off + (k - off) = k := by omega
+    have hd : decide (k - off < w) = true := by simp; omega
+    rw [e, hd, Bool.and_true]
+  · rw [if_neg hr]
+
+/-- bit-field dictionary with unique keys, loaded into the register it produced: nothing changes -/
+theorem loadFields_idem (r r1 : Reg) (rm : RegMeta) (l : List (Nat × CfgVal)) (h : PlainOK r)
+    (hnd : (l.map (·.1)).Nodup) (hl : loadFields r rm l = .ok r1) : loadFields r1 rm l = .ok r1 := by
+  induction l generalizing r with
+  | nil => rfl
+  | cons e rest ih =>
+    obtain ⟨j, c⟩ := e
+    simp only [loadFields] at hl
+    cases hf : r.fields[j]? with
+    | none => rw [hf] at hl; cases hl
+    | some f =>
+      rw [hf] at hl
+      simp only [] at hl
+      cases hlf : loadField r f (rm.field j) c with
+      | error e => rw [hlf] at hl; cases hl
+      | ok ra =>
+        rw [hlf] at hl
+        simp only [] at hl
+        have hin := h.fieldsIn f (List.mem_of_getElem? hf)
+        obtain ⟨v1, hs, hv1, rfl⟩ := loadField_plain_inv r ra f _ c h hin hlf
+        have hra := plainOK_upd r (insertBits r.value f.offset f.width v1) h (insertBits_lt _ _ _ _ _ h.bound hin)
+        simp only [List.map_cons, List.nodup_cons] at hnd
+        obtain ⟨y, hy, hyb⟩ := loadFields_plain_inv _ r1 rm rest hra hl
+        have hfr := loadFields_frame _ r1 rm rest j f hra hf hnd.1 hl
+        simp only [] at hfr
+        rw [slice_insertBits_same _ _ _ _ hv1] at hfr
+        have h1 : PlainOK r1 := by rw [hy]; exact plainOK_upd _ y hra hyb
+        have hf1 : r1.fields[j]? = some f := by rw [hy]; exact hf
+        have hin1 : f.offset + f.width ≤ r1.width := by rw [hy]; exact hin
+        have hstep : loadField r1 f (rm.field j) c = .ok r1 := by
+          rw [loadField_plain r1 f _ c h1 hin1, hs]
+          simp only []
+          rw [if_neg (by omega), insertBits_same _ _ _ _ hfr]
+        simp only [loadFields, hf1, hstep]
+        exact ih _ hra hnd.2 hl
+
+/-! ### loading twice: groups, sub-registers -/
+
+theorem setAlt_group_inv (r r' : Reg) (alts : List Nat) (v : Nat) (raw : Bool) (hg : 0 < r.subW)
+    (h : r.setAlt alts v raw = .ok r') :
+    v < 2 ^ r.width ∧ ∃ x, (if !raw && r.reverse then brev (altWidth alts r.width v) v else some v) = some x ∧
+      r' = { r with subs := distributeW r (altWidth alts r.width v) x } := by
+  by_cases hv : v < 2 ^ r.width
+  · refine ⟨hv, ?_⟩
+    cases hx : (if !raw && r.reverse then brev (altWidth alts r.width v) v else some v) with
+    | none =>
+      have : ¬ (v ≥ 2 ^ r.width) := by omega
+      simp only [Reg.setAlt, this, if_false, hx] at h
+      cases h
+    | some x =>
+      rw [setAlt_group r alts v x raw hg hv hx] at h
+      cases h
+      exact ⟨x, rfl, rfl⟩
+  · rw [setAlt_reject r alts v raw (by omega)] at h; cases h
+
+theorem distributeW_idem (r : Reg) (aw x : Nat) :
+    distributeW { r with subs := distributeW r aw x } aw x = distributeW r aw x := by
+  apply List.ext_getElem?
+  intro i
+  rcases Nat.lt_or_ge i r.subs.length with hi | hi
+  · rw [distributeW_getElem? _ aw x i (by simp only [distributeW_length]; exact hi), distributeW_getElem? r aw x i hi]
+    congr 1
+    by_cases hin : i < aw / r.subW
+    · simp only [hin, if_true]; rfl
+    · simp only [hin, if_false]
+      rw [List.getD_eq_getElem?_getD, distributeW_getElem? r aw x i hi]
+      simp [hin]
+  · rw [List.getElem?_eq_none (by simp only [distributeW_length]; omega),
+      List.getElem?_eq_none (by simp only [distributeW_length]; omega)]
+
+theorem groupOK_upd (r : Reg) (aw x : Nat) (h : GroupOK r) : GroupOK { r with subs := distributeW r aw x } :=
+  ⟨h.sub, by simp only [distributeW_length]; exact h.width, distributeW_bound r aw x h.bound, h.bytes⟩
+
+theorem setAlt_idem_group (r r' : Reg) (alts : List Nat) (v : Nat) (raw : Bool) (h : GroupOK r)
+    (hs : r.setAlt alts v raw = .ok r') :
+    r'.setAlt alts v raw = .ok r' ∧ GroupOK r' ∧ r'.reverse = r.reverse ∧ r'.fields = r.fields ∧
+      r'.revSubs = r.revSubs ∧ r'.width = r.width ∧ r'.subW = r.subW := by
+  obtain ⟨hv, x, hx, rfl⟩ := setAlt_group_inv r r' alts v raw h.sub hs
+  refine ⟨?_, groupOK_upd r _ x h, rfl, rfl, rfl, rfl, rfl⟩
+  rw [setAlt_group { r with subs := distributeW r (altWidth alts r.width v) x } alts v x raw h.sub hv hx]
+  simp only [distributeW_idem]
+
+/-- the "run the processing" step does nothing on a group that is not byte-reversed -/
+theorem process_group_id (r : Reg) (alts : List Nat) (h : GroupOK r) (hn : r.reverse = false)
+    (halts : ∀ a ∈ alts, a % 8 = 0 ∧ 8 ≤ a ∧ a ≤ r.width ∧ a % r.subW = 0)
+    (hord : r.revSubs = false ∨ alts = []) :
+    r.getAlt alts true = .ok (assemble r) ∧ r.setAlt alts (assemble r) false = .ok r := by
+  have hva := assemble_lt r h.width h.bound
+  obtain ⟨_, fdiv, _, fv⟩ := altWidth_facts alts r (assemble r) h.width h.bytes halts hva
+  refine ⟨by rw [getAlt_group r alts true h.sub]; rfl, ?_⟩
+  rw [setAlt_group r alts (assemble r) (assemble r) false h.sub hva (by simp [hn])]
+  have hord' : r.revSubs = false ∨ altWidth alts r.width (assemble r) = r.width := by
+    rcases hord with h' | h'
+    · exact Or.inl h'
+    · right; rw [h', altWidth_nil]
+  have hup : ∀ i, altWidth alts r.width (assemble r) / r.subW ≤ i → r.subs.getD i 0 = 0 := by
+    intro i hi
+    rcases hord' with h' | h'
+    · exact sub_zero_of_assemble_lt r _ i h.width h.bound h' h.sub fdiv fv hi
+    · rw [h', h.width, Nat.mul_div_cancel_left _ h.sub] at hi
+      rw [List.getD_eq_getElem?_getD, List.getElem?_eq_none hi]; rfl
+  rw [distributeW_assemble r r _ h.sub h.width h.bound rfl rfl rfl fdiv fv hord' hup]
+
+/-- register invariant of the configuration path (mirror of `C11.RegWF'`) -/
+inductive RegInv (rm : RegMeta) (r : Reg) : Prop
+  | plain : PlainOK r → RegInv rm r
+  | group : GroupOK r → r.fields = [] →
+      (∀ a ∈ rm.alts, a % 8 = 0 ∧ 8 ≤ a ∧ a ≤ r.width ∧ a % r.subW = 0) →
+      (r.revSubs = false ∨ rm.alts = []) → RegInv rm r
+
+theorem loadReg_idem (rm : RegMeta) (r r' : Reg) (c : RegCfg) (h : RegInv rm r)
+    (hnd : ∀ l, c = .fields l → (l.map (·.1)).Nodup) (hrev : ∀ l, c = .fields l → r.reverse = false)
+    (hl : loadReg r rm c = .ok r') :
+    loadReg r' rm c = .ok r' ∧ RegInv rm r' ∧ r'.reverse = r.reverse := by
+  cases h with
+  | plain hp =>
+    cases c with
+    | value v =>
+      simp only [loadReg] at hl ⊢
+      by_cases hv : v < 2 ^ r.width
+      · rw [setAlt_plain r rm.alts v false hp.plain hp.norev hv] at hl
+        cases hl
+        exact ⟨setAlt_plain _ rm.alts v false hp.plain hp.norev hv, .plain (plainOK_upd r v hp hv), rfl⟩
+      · rw [setAlt_reject r rm.alts v false (by omega)] at hl; cases hl
+    | fields l =>
+      simp only [loadReg] at hl ⊢
+      cases hlf : loadFields r rm l with
+      | error e => rw [hlf] at hl; cases hl
+      | ok r1 =>
+        rw [hlf] at hl
+        simp only [] at hl
+        obtain ⟨y, hy, hyb⟩ := loadFields_plain_inv r r1 rm l hp hlf
+        have h1 : PlainOK r1 := by rw [hy]; exact plainOK_upd r y hp hyb
+        rw [getAlt_plain r1 rm.alts true h1.plain h1.norev] at hl
+        simp only [] at hl
+        rw [setAlt_plain r1 rm.alts r1.value false h1.plain h1.norev h1.bound] at hl
+        have e1 : ({ r1 with value := r1.value } : Reg) = r1 := by cases r1; rfl
+        rw [e1] at hl
+        cases hl
+        have hid := loadFields_idem r r1 rm l hp (hnd l rfl) hlf
+        refine ⟨?_, .plain h1, by rw [hy]⟩
+        rw [hid]
+        simp only []
+        rw [getAlt_plain r1 rm.alts true h1.plain h1.norev]
+        simp only []
+        rw [setAlt_plain r1 rm.alts r1.value false h1.plain h1.norev h1.bound, e1]
+  | group hg he halts hord =>
+    cases c with
+    | value v =>
+      simp only [loadReg] at hl ⊢
+      obtain ⟨h1, h2, h3, h4, h5, h6, h7⟩ := setAlt_idem_group r r' rm.alts v false hg hl
+      exact ⟨h1, .group h2 (by rw [h4]; exact he) (by rw [h6, h7]; exact halts) (by rw [h5]; exact hord), h3⟩
+    | fields l =>
+      cases l with
+      | nil =>
+        obtain ⟨p1, p2⟩ := process_group_id r rm.alts hg (hrev [] rfl) halts hord
+        have : loadReg r rm (.fields []) = .ok r := by
+          simp only [loadReg, loadFields, p1, p2]
+        rw [this] at hl
+        cases hl
+        exact ⟨this, .group hg he halts hord, rfl⟩
+      | cons e rest =>
+        obtain ⟨j, c⟩ := e
+        simp [loadReg, loadFields, he] at hl
+
+theorem set_self {α : Type} (l : List α) (i : Nat) (a : α) (h : l[i]? = some a) : l.set i a = l := by
+  apply List.ext_getElem?
+  intro k
+  rw [List.getElem?_set]
+  split
+  · rename_i hik
+    subst hik
+    split
+    · exact h.symm
+    · rename_i hlt
+      rw [List.getElem?_eq_none (by omega)] at h; cases h
+  · rfl
+
+theorem loadSub_idem (rm : RegMeta) (r r' : Reg) (k : Nat) (c : RegCfg) (h : RegInv rm r)
+    (hl : loadSub r k c = .ok r') :
+    loadSub r' k c = .ok r' ∧ RegInv rm r' ∧ r'.reverse = r.reverse := by
+  cases h with
+  | plain hp =>
+    have hg : r.isGroup = false := isGroup_false r hp.plain
+    cases c with
+    | value v => simp [loadSub, hg] at hl
+    | fields l =>
+      cases l with
+      | nil => simp [loadSub, hg] at hl
+      | cons e rest => simp [loadSub] at hl
+  | group hg he halts hord =>
+    have hgt : r.isGroup = true := isGroup_true r hg.sub
+    cases c with
+    | value v =>
+      simp only [loadSub, hgt, true_and] at hl ⊢
+      by_cases hk : k < r.subs.length
+      · rw [if_pos hk] at hl
+        by_cases hv : v ≥ 2 ^ r.subW
+        · rw [if_pos hv] at hl; cases hl
+        · rw [if_neg hv] at hl
+          cases hl
+          have hgt' : ({ r with subs := r.subs.set k v } : Reg).isGroup = true := isGroup_true _ hg.sub
+          refine ⟨?_, .group ⟨hg.sub, by simp only [List.length_set]; exact hg.width, ?_, hg.bytes⟩ he halts hord, rfl⟩
+          · simp only [hgt', List.length_set, hk, if_true, hv, if_false, true_and, List.set_set]
+          · intro s hs
+            rcases List.mem_or_eq_of_mem_set hs with h1 | h1
+            · exact hg.bound s h1
+            · subst h1; exact Nat.lt_of_not_ge hv
+      · rw [if_neg hk] at hl; cases hl
+    | fields l =>
+      cases l with
+      | nil =>
+        simp only [loadSub, hgt, true_and] at hl ⊢
+        by_cases hk : k < r.subs.length
+        · rw [if_pos hk] at hl; cases hl
+          exact ⟨by simp [hgt, hk], .group hg he halts hord, rfl⟩
+        · rw [if_neg hk] at hl; cases hl
+      | cons e rest => simp [loadSub] at hl
+
+/-! ### loading twice: the register file -/
+
+/-- dictionary keys are unique, and a bit-field dictionary is not given for a byte-reversed register (its raw value is
+    byte-swapped by the processing step of every load) -/
+def EntryOK (rf : RegFile) (e : RegRef × RegCfg) : Prop :=
+  (∀ l, e.2 = .fields l → (l.map (·.1)).Nodup) ∧
+  (∀ i l r, e.1 = .top i → e.2 = .fields l → rf[i]? = some r → r.reverse = false)
+
+theorem loadEntry_inv (m : Meta) (rf rfa : RegFile) (e : RegRef × RegCfg) (h : loadEntry m rf e = .ok rfa) :
+    ∃ r ra, rf[e.1.idx]? = some r ∧ rfa = rf.set e.1.idx ra ∧
+      ((∃ i, e.1 = .top i ∧ loadReg r (m.reg i) e.2 = .ok ra) ∨ (∃ i k, e.1 = .sub i k ∧ loadSub r k e.2 = .ok ra)) := by
+  obtain ⟨ref, c⟩ := e
+  cases ref with
+  | top i =>
+    simp only [loadEntry] at h
+    obtain ⟨r, ra, h1, h2, h3⟩ := updAt_inv rf rfa i _ h
+    exact ⟨r, ra, h1, h3, Or.inl ⟨i, rfl, h2⟩⟩
+  | sub i k =>
+    simp only [loadEntry] at h
+    obtain ⟨r, ra, h1, h2, h3⟩ := updAt_inv rf rfa i _ h
+    exact ⟨r, ra, h1, h3, Or.inr ⟨i, k, rfl, h2⟩⟩
+
+theorem loadConfig_frame (m : Meta) (rf rf1 : RegFile) (cfg : Cfg) (i : Nat) (hni : i ∉ cfg.map (·.1.idx))
+    (hl : loadConfig m rf cfg = .ok rf1) : rf1[i]? = rf[i]? := by
+  induction cfg generalizing rf with
+  | nil => simp [loadConfig] at hl; subst hl; rfl
+  | cons e es ih =>
+    simp only [loadConfig] at hl
+    cases hle : loadEntry m rf e with
+    | error err => rw [hle] at hl; cases hl
+    | ok rfa =>
+      rw [hle] at hl
+      simp only [] at hl
+      obtain ⟨r, ra, h1, h2, _⟩ := loadEntry_inv m rf rfa e hle
+      have hne : e.1.idx ≠ i := by intro h; apply hni; simp [h]
+      have hni' : i ∉ es.map (·.1.idx) := by
+        intro hm; apply hni; simp at hm ⊢; exact Or.inr hm
+      rw [ih rfa hni' hl, h2, List.getElem?_set_ne hne]
+
+theorem loadConfig_idem (m : Meta) (rf rf1 : RegFile) (cfg : Cfg)
+    (hinv : ∀ i r, rf[i]? = some r → RegInv (m.reg i) r)
+    (hk : (cfg.map (·.1.idx)).Nodup) (he : ∀ e ∈ cfg, EntryOK rf e)
+    (hl : loadConfig m rf cfg = .ok rf1) : loadConfig m rf1 cfg = .ok rf1 := by
+  induction cfg generalizing rf with
+  | nil => rfl
+  | cons e es ih =>
+    simp only [loadConfig] at hl
+    cases hle : loadEntry m rf e with
+    | error err => rw [hle] at hl; cases hl
+    | ok rfa =>
+      rw [hle] at hl
+      simp only [] at hl
+      obtain ⟨r, ra, h1, h2, h3⟩ := loadEntry_inv m rf rfa e hle
+      simp only [List.map_cons, List.nodup_cons] at hk
+      have heo := he e (by simp)
+      -- the register written by `e` is a fixed point of `e`
+      have hfix : RegInv (m.reg e.1.idx) ra ∧ ra.reverse = r.reverse ∧
+          (∀ s : RegFile, s[e.1.idx]? = some ra → loadEntry m s e = .ok (s.set e.1.idx ra)) := by
+        obtain ⟨ref, c⟩ := e
+        rcases h3 with ⟨i, hi, hlr⟩ | ⟨i, k, hi, hlr⟩
+        · simp only [] at hi hlr h1 heo ⊢
+          subst hi
+          obtain ⟨a1, a2, a3⟩ := loadReg_idem (m.reg i) r ra c (hinv i r h1) heo.1
+            (fun l hc => heo.2 i l r rfl hc h1) hlr
+          refine ⟨a2, a3, ?_⟩
+          intro s hs
+          have hs' : s[i]? = some ra := hs
+          simp [loadEntry, updAt, hs', a1, RegRef.idx]
+        · simp only [] at hi hlr h1 ⊢
+          subst hi
+          obtain ⟨a1, a2, a3⟩ := loadSub_idem (m.reg i) r ra k c (hinv i r h1) hlr
+          refine ⟨a2, a3, ?_⟩
+          intro s hs
+          have hs' : s[i]? = some ra := hs
+          simp [loadEntry, updAt, hs', a1, RegRef.idx]
+      obtain ⟨hinva, hreva, hent⟩ := hfix
+      have hinv' : ∀ i r, rfa[i]? = some r → RegInv (m.reg i) r := by
+        intro i x hx
+        rw [h2, List.getElem?_set] at hx
+        split at hx
+        · rename_i hii
+          subst hii
+          split at hx
+          · cases hx; exact hinva
+          · cases hx
+        · exact hinv i x hx
+      have he' : ∀ e' ∈ es, EntryOK rfa e' := by
+        intro e' he'
+        obtain ⟨b1, b2⟩ := he e' (by simp [he'])
+        refine ⟨b1, ?_⟩
+        intro i l x hi hc hx
+        rw [h2, List.getElem?_set] at hx
+        split at hx
+        · rename_i hii
+          subst hii
+          split at hx
+          · cases hx; rw [hreva]; exact b2 _ l r hi hc h1
+          · cases hx
+        · exact b2 i l x hi hc hx
+      have hrest := ih rfa hinv' hk.2 he' hl
+      have hfr : rf1[e.1.idx]? = some ra := by
+        rw [loadConfig_frame m rfa rf1 es e.1.idx hk.1 hl, h2]
+        have : e.1.idx < rf.length := by
+          rcases Nat.lt_or_ge e.1.idx rf.length with h | h
+          · exact h
+          · rw [List.getElem?_eq_none h] at h1; cases h1
+        simp [List.getElem?_set, this]
+      simp only [loadConfig]
+      rw [hent rf1 hfr, set_self rf1 _ ra hfr]
+      exact hrest
+
 end SpsdkVerif.Regs
